@@ -5,7 +5,7 @@
    field denotes; `next` = section offset + source offset + region size. *)
 From Coq Require Import ZArith List Bool.
 From Verif Require Import Codec.OffsetModel Labels.LabelsModel Labels.LabelsProofs Reloc.RelocModel Reloc.RelocProofs Reloc.InstalledImage.
-From Verif Require Import X86.X86Model Reloc.X86Meaning Labels.A64Dec Reloc.A64Meaning Labels.X86RefMeaning Reloc.RelocInImage Labels.FlatModel.
+From Verif Require Import X86.X86Model Reloc.X86Meaning Labels.A64Dec Reloc.A64Meaning Labels.X86RefMeaning Labels.X86EndToEnd Reloc.RelocInImage Labels.FlatModel Reloc.RelocComplete Reloc.InstalledDecode.
 From Verif Require Import Sections.SectionModel Sections.SectionProofs Sections.ChunkModel Sections.CopyProofs Sections.JitReloc.
 Import ListNotations.
 Local Open Scope Z_scope.
@@ -523,3 +523,191 @@ Theorem C04_reloc_abs32_in_image_witness :
     site_target M32 CMem sh 4194304 (senc M32 sh (ex_mov32 4194568) c ++ []) = Some 4194568.
 Proof. exact reloc_abs32_in_image_witness. Qed.
 Print Assumptions C04_reloc_abs32_in_image_witness.
+
+(* ---- round 7: the COMPLETENESS direction - exact success conditions of one relocation entry (`succeeds` = relocate_entry answers a patch).
+   The *_exact theorems say what a success stores, the *_reported theorems that unreachable is an error; these say WHEN it succeeds. ---- *)
+Theorem C04_reloc_abs_succeeds_iff : forall base asize atoff slots e toff n,
+  e_kind e = RRelToAbs (Some toff) -> e_fmt e = ufmt n -> n = 1 \/ n = 2 \/ n = 4 \/ n = 8 -> e_old e = 0 ->
+  (succeeds base asize atoff slots e <-> (e_payload e + base + toff) mod 2 ^ 64 < 2 ^ (8 * n)).
+Proof. exact reloc_abs_succeeds_iff. Qed.
+Print Assumptions C04_reloc_abs_succeeds_iff.
+
+Theorem C04_reloc_expr_succeeds_iff : forall base asize atoff slots e a b n,
+  e_kind e = RExpr a b -> e_fmt e = sfmt n -> n = 1 \/ n = 2 \/ n = 4 \/ n = 8 -> e_old e = 0 ->
+  (succeeds base asize atoff slots e <->
+   exists pl pb, a = Some pl /\ b = Some pb /\ - 2 ^ (8 * n - 1) <= to_i64 (wrap 64 (pl - pb)) < 2 ^ (8 * n - 1)).
+Proof. exact reloc_expr_succeeds_iff. Qed.
+Print Assumptions C04_reloc_expr_succeeds_iff.
+
+Theorem C04_reloc_rel_succeeds_iff : forall base asize atoff slots e,
+  e_kind e = RAbsToRel -> 4 < asize -> e_fmt e = fmt_of_kind K_Rel32 -> e_old e = 0 ->
+  (succeeds base asize atoff slots e <->
+   - 2 ^ 31 <= to_i64 (wrap 64 (e_payload e - (base + (e_secoff e + e_off e + e_region e)))) < 2 ^ 31).
+Proof. exact reloc_rel_succeeds_iff. Qed.
+Print Assumptions C04_reloc_rel_succeeds_iff.
+
+(* an address-table call / jmp (E8 / E9) never fails when every table slot it may get is within rel32 reach of the site *)
+Theorem C04_reloc_addr_entry_complete : forall base asize atoff slots e opc,
+  e_kind e = RAddrEntry opc -> opc = 232 \/ opc = 233 -> e_fmt e = fmt_of_kind K_Rel32 -> e_old e = 0 -> 2 <= e_off e + e_lead e ->
+  (forall slot, 0 <= slot <= zlen slots ->
+     - 2 ^ 31 <= to_i64 (wrap 64 (atoff + slot * asize - (e_secoff e + e_off e + e_region e))) < 2 ^ 31) ->
+  succeeds base asize atoff slots e.
+Proof. exact reloc_addr_entry_complete. Qed.
+Print Assumptions C04_reloc_addr_entry_complete.
+
+Theorem C04_reloc_abs_succeeds_iff_witness :
+  succeeds 4294967040 8 0 [] (ex_abs_e 255) /\ ~ succeeds 4294967040 8 0 [] (ex_abs_e 256).
+Proof. exact reloc_abs_succeeds_iff_witness. Qed.
+Print Assumptions C04_reloc_abs_succeeds_iff_witness.
+
+Theorem C04_reloc_expr_succeeds_iff_witness :
+  succeeds 0 8 0 [] (ex_expr_e (Some 127) (Some 0)) /\ ~ succeeds 0 8 0 [] (ex_expr_e (Some 128) (Some 0)) /\ ~ succeeds 0 8 0 [] (ex_expr_e None (Some 0)).
+Proof. exact reloc_expr_succeeds_iff_witness. Qed.
+Print Assumptions C04_reloc_expr_succeeds_iff_witness.
+
+(* ---- round 7: END TO END on the relocated bytes, no hypothesis about a structural instruction: `call / jmp / jcc <absolute>` emitted as
+   the opcode bytes `pre` (one of the proven forms, C03_x86_branch_forms) + a rel32 hole with a RelocType::kAbsToRel entry, no other
+   relocation site touching the instruction; after relocate_to_base, decoding the relocated bytes at the instruction's first byte with
+   C01's proven decoder designates the absolute target ---- *)
+Theorem C04_reloc_branch_end_to_end : forall base asize atoff reserved last es r data i e o (m : mode) pre mk (A Hh B : list Z),
+  branch_form m 4 pre mk ->
+  relocate base asize atoff reserved last es = inl r ->
+  (forall e', In e' es -> site_wf data e') -> sites_disjoint es ->
+  nth_error es i = Some e -> nth_error (rr_outs r) i = Some o ->
+  e_kind e = RAbsToRel -> (if is64 m then 4 <? asize else asize <=? 4) = true -> e_fmt e = fmt_of_kind K_Rel32 -> e_old e = 0 ->
+  data = A ++ pre ++ Hh ++ B -> length Hh = 4%nat ->
+  e_off e = zlen A -> e_lead e = zlen pre -> e_region e = zlen pre + 4 ->
+  (forall j e', j <> i -> nth_error es j = Some e' -> site_hi e' <= zlen A \/ zlen A + zlen pre + 4 <= site_lo e') ->
+  site_target m CBranch (mkSh false false 4 1) (base + e_secoff e + e_off e) (skipn (Z.to_nat (zlen A)) (patch_all data es (rr_outs r)))
+    = Some (e_payload e mod 2 ^ abits m).
+Proof. exact reloc_branch_end_to_end. Qed.
+Print Assumptions C04_reloc_branch_end_to_end.
+
+(* frame condition used above: a cell is left alone by every site that either does not contain it in its (conservative) range or does not
+   rewrite its opcode bytes and does not contain it in its value word *)
+Theorem C04_patch_all_outside_gen : forall es outs data c, 0 <= c ->
+  (forall e, In e es -> site_wf data e) ->
+  (forall e o, In (e, o) (combine es outs) -> leaves_alone c e o) ->
+  cell (patch_all data es outs) c = cell data c.
+Proof. exact patch_all_outside_gen. Qed.
+Print Assumptions C04_patch_all_outside_gen.
+
+Theorem C04_reloc_branch_end_to_end_witness :
+  exists r o, branch_form M64 4 [233] (mk_leg false 0 233) /\
+    relocate 4194304 8 0 0 false [ex_jmp_entry] = inl r /\ nth_error (rr_outs r) O = Some o /\
+    (forall e', In e' [ex_jmp_entry] -> site_wf [233; 0; 0; 0; 0] e') /\ sites_disjoint [ex_jmp_entry] /\
+    [233; 0; 0; 0; 0] = [] ++ [233] ++ [0; 0; 0; 0] ++ [] /\
+    (forall j e', j <> O -> nth_error [ex_jmp_entry] j = Some e' -> site_hi e' <= zlen (@nil Z) \/ zlen (@nil Z) + zlen [233] + 4 <= site_lo e') /\
+    site_target M64 CBranch (mkSh false false 4 1) (4194304 + 0 + 0) (skipn (Z.to_nat (zlen (@nil Z))) (patch_all [233; 0; 0; 0; 0] [ex_jmp_entry] (rr_outs r)))
+      = Some 4198400.
+Proof. exact reloc_branch_end_to_end_witness. Qed.
+Print Assumptions C04_reloc_branch_end_to_end_witness.
+
+
+(* the same for x86-64 `[abs]` operands made RIP-relative (AbsToRel on the disp32): lea / mov forms (C03_x86_rip_forms) and the forms with a
+   trailing immediate (C03_x86_rip_imm_forms) *)
+Theorem C04_reloc_rip_end_to_end : forall base asize atoff reserved last es r data i e o pre mk reg (A Hh B : list Z),
+  rip_form pre mk reg ->
+  relocate base asize atoff reserved last es = inl r ->
+  (forall e', In e' es -> site_wf data e') -> sites_disjoint es ->
+  nth_error es i = Some e -> nth_error (rr_outs r) i = Some o ->
+  e_kind e = RAbsToRel -> 4 < asize -> e_fmt e = fmt_of_kind K_Rel32 -> e_old e = 0 ->
+  data = A ++ pre ++ Hh ++ B -> length Hh = 4%nat ->
+  e_off e = zlen A -> e_lead e = zlen pre -> e_region e = zlen pre + 4 ->
+  (forall j e', j <> i -> nth_error es j = Some e' -> site_hi e' <= zlen A \/ zlen A + zlen pre + 4 <= site_lo e') ->
+  site_target M64 CMem (mkSh true false 0 1) (base + e_secoff e + e_off e) (skipn (Z.to_nat (zlen A)) (patch_all data es (rr_outs r)))
+    = Some (e_payload e mod 2 ^ 64).
+Proof. exact reloc_rip_end_to_end. Qed.
+Print Assumptions C04_reloc_rip_end_to_end.
+
+Theorem C04_reloc_rip_imm_end_to_end : forall base asize atoff reserved last es r data i e o n pre mk reg imm (A Hh B : list Z),
+  rip_form_imm n pre mk reg -> 0 <= imm < 256 ^ Z.of_nat n ->
+  relocate base asize atoff reserved last es = inl r ->
+  (forall e', In e' es -> site_wf data e') -> sites_disjoint es ->
+  nth_error es i = Some e -> nth_error (rr_outs r) i = Some o ->
+  e_kind e = RAbsToRel -> 4 < asize -> e_fmt e = fmt_of_kind K_Rel32 -> e_old e = 0 ->
+  data = A ++ pre ++ Hh ++ X86Model.le_bytes n imm ++ B -> length Hh = 4%nat ->
+  e_off e = zlen A -> e_lead e = zlen pre -> e_region e = zlen pre + 4 + Z.of_nat n ->
+  (forall j e', j <> i -> nth_error es j = Some e' -> site_hi e' <= zlen A \/ zlen A + zlen pre + 4 + Z.of_nat n <= site_lo e') ->
+  site_target M64 CMem (mkSh true false n 1) (base + e_secoff e + e_off e) (skipn (Z.to_nat (zlen A)) (patch_all data es (rr_outs r)))
+    = Some (e_payload e mod 2 ^ 64).
+Proof. exact reloc_rip_imm_end_to_end. Qed.
+Print Assumptions C04_reloc_rip_imm_end_to_end.
+
+Theorem C04_reloc_rip_end_to_end_witness :
+  exists r o, rip_form [72; 141; 5] (mk_rip 141 0) 0 /\
+    relocate 4194304 8 0 0 false [ex_lea_entry] = inl r /\ nth_error (rr_outs r) O = Some o /\
+    (forall e', In e' [ex_lea_entry] -> site_wf [72; 141; 5; 0; 0; 0; 0] e') /\ sites_disjoint [ex_lea_entry] /\
+    [72; 141; 5; 0; 0; 0; 0] = [] ++ [72; 141; 5] ++ [0; 0; 0; 0] ++ [] /\
+    site_target M64 CMem (mkSh true false 0 1) (4194304 + 0 + 0) (skipn (Z.to_nat (zlen (@nil Z))) (patch_all [72; 141; 5; 0; 0; 0; 0] [ex_lea_entry] (rr_outs r)))
+      = Some 4198400.
+Proof. exact reloc_rip_end_to_end_witness. Qed.
+Print Assumptions C04_reloc_rip_end_to_end_witness.
+
+
+(* x86-32 `op reg, [label + d]` / `op [label + d], imm` (RelToAbs on the disp32 of an absolute memory operand), end to end on the relocated
+   bytes; abs_form n pre mk reg: pre ++ disp32 ++ n-byte immediate is C01's 32-bit-mode encoding of mk d imm *)
+Theorem C04_reloc_abs32_end_to_end : forall base asize atoff reserved last es r data i e o n pre mk reg imm toff (A Hh B : list Z),
+  abs_form n pre mk reg -> 0 <= imm < 256 ^ Z.of_nat n ->
+  relocate base asize atoff reserved last es = inl r ->
+  (forall e', In e' es -> site_wf data e') -> sites_disjoint es ->
+  nth_error es i = Some e -> nth_error (rr_outs r) i = Some o ->
+  e_kind e = RRelToAbs (Some toff) -> e_fmt e = ufmt 4 -> e_old e = 0 ->
+  data = A ++ pre ++ Hh ++ X86Model.le_bytes n imm ++ B -> length Hh = 4%nat ->
+  e_off e = zlen A -> e_lead e = zlen pre ->
+  (forall j e', j <> i -> nth_error es j = Some e' -> site_hi e' <= zlen A \/ zlen A + zlen pre + 4 + Z.of_nat n <= site_lo e') ->
+  site_target M32 CMem (mkSh true false n 1) (base + e_secoff e + e_off e) (skipn (Z.to_nat (zlen A)) (patch_all data es (rr_outs r)))
+    = Some ((e_payload e + base + toff) mod 2 ^ 64) /\
+  (e_payload e + base + toff) mod 2 ^ 64 < 2 ^ 32.
+Proof. exact reloc_abs32_end_to_end. Qed.
+Print Assumptions C04_reloc_abs32_end_to_end.
+
+Theorem C04_x86_abs_forms :
+  (forall opc reg, opc = 141 \/ opc = 139 \/ opc = 137 -> 0 <= reg < 8 -> abs_form 0 [opc; 8 * reg + 5] (mk_abs32 false opc reg) reg) /\
+  abs_form 1 [198; 5] (mk_abs32 false 198 0) 0 /\ abs_form 2 [102; 199; 5] (mk_abs32 true 199 0) 0 /\
+  abs_form 4 [199; 5] (mk_abs32 false 199 0) 0 /\ abs_form 1 [131; 5] (mk_abs32 false 131 0) 0.
+Proof. exact (conj abs_forms_rm (conj abs_form_mov8 (conj abs_form_mov16 (conj abs_form_mov32 abs_form_add8)))). Qed.
+Print Assumptions C04_x86_abs_forms.
+
+Theorem C04_reloc_abs32_end_to_end_witness :
+  exists r o, abs_form 0 [139; 8 * 0 + 5] (mk_abs32 false 139 0) 0 /\
+    relocate 4194304 4 0 0 false [ex_abs32_entry] = inl r /\ nth_error (rr_outs r) O = Some o /\
+    (forall e', In e' [ex_abs32_entry] -> site_wf [139; 5; 0; 0; 0; 0] e') /\ sites_disjoint [ex_abs32_entry] /\
+    [139; 5; 0; 0; 0; 0] = [] ++ [139; 8 * 0 + 5] ++ [0; 0; 0; 0] ++ X86Model.le_bytes 0 0 ++ [] /\
+    site_target M32 CMem (mkSh true false 0 1) (4194304 + 0 + 0) (skipn (Z.to_nat (zlen (@nil Z))) (patch_all [139; 5; 0; 0; 0; 0] [ex_abs32_entry] (rr_outs r)))
+      = Some 4194568.
+Proof. exact reloc_abs32_end_to_end_witness. Qed.
+Print Assumptions C04_reloc_abs32_end_to_end_witness.
+
+
+(* ---- round 7: the installed `call <absolute>` DECODED from the installed image (six bytes read at the site) by C01's proven decoder:
+   a direct `call rel32` (40 E8) to the target, or `call [rip + disp32]` (FF 15) whose operand is the address-table slot holding the target
+   (its installed bytes: C04_installed_table_slot) ---- *)
+Theorem C04_installed_call_decodes : forall st calls base fill final img h2 i pos target,
+  wf_holder (jh st) -> data_len_ok (jh st) ->
+  (forall h1, flatten (jh st) = (EOk, h1) -> NoDup (map sid h1) /\ (forall s, In s h1 -> 0 <= sid s)) ->
+  jtab st <> Some 0 -> (forall h off, sites_disjoint (map (site_entry h off) calls)) ->
+  jit_add_reloc st calls base fill = (JOk, final, img, h2) ->
+  nth_error calls i = Some (SCall pos target) ->
+  exists h1 text atoff reserved last r,
+    flatten (jh st) = (EOk, h1) /\ by_id h1 0 = Some text /\
+    relocate base REG_SIZE atoff reserved last (map (site_entry h1 (soff text)) calls) = inl r /\
+    (soff text + pos + CALL_LEN <= final -> cell (sdata text) pos = 64 -> cell (sdata text) (pos + 1) = 232 ->
+     let a := soff text + pos in let bytes := bytes_at (flat img) a 6 in
+     site_target M64 CBranch (mkSh false false 4 1) (base + a) bytes = Some (target mod 2 ^ 64) \/
+     exists slot, 0 <= slot /\ nth_error (rr_table r) (Z.to_nat slot) = Some target /\
+       site_target M64 CMem (mkSh true false 0 1) (base + a) bytes = Some ((base + atoff + slot * REG_SIZE) mod 2 ^ 64)).
+Proof. exact installed_call_decodes. Qed.
+Print Assumptions C04_installed_call_decodes.
+
+Theorem C04_installed_call_decodes_witness : exists final img h2,
+  let calls := [SCall 0 1311768467463790320; SCall 6 4198400] in
+  wf_holder (jh ex_call_state) /\ data_len_ok (jh ex_call_state) /\
+  (forall h1, flatten (jh ex_call_state) = (EOk, h1) -> NoDup (map sid h1) /\ (forall s, In s h1 -> 0 <= sid s)) /\
+  jtab ex_call_state <> Some 0 /\ (forall h off, sites_disjoint (map (site_entry h off) calls)) /\
+  jit_add_reloc ex_call_state calls 4194304 204 = (JOk, final, img, h2) /\
+  site_target M64 CBranch (mkSh false false 4 1) (4194304 + 6) (bytes_at (flat img) 6 6) = Some 4198400 /\
+  site_target M64 CMem (mkSh true false 0 1) (4194304 + 0) (bytes_at (flat img) 0 6) = Some (4194304 + 16) /\
+  bytes_at (flat img) 16 8 = JitReloc.le_bytes 8 1311768467463790320.
+Proof. exact installed_call_decodes_witness. Qed.
+Print Assumptions C04_installed_call_decodes_witness.
